@@ -691,6 +691,13 @@ private:
             return string_view{};
         }
         offset += data.size();
+        if (JSONCONS_UNLIKELY(data[size-1] != 0))
+        {
+            // string ::= int32 (byte*) "\x00": the declared length must end on the terminating zero
+            ec = bson_errc::size_mismatch;
+            more_ = false;
+            return string_view{};
+        }
 
         state_stack_.back().pos += offset;
         return string_view{reinterpret_cast<const char*>(data.data()), data.size()-1};
